@@ -233,6 +233,9 @@ pub fn scenarios() -> Vec<Scn> {
       v.push(subject_scn(kind, vec![vec![C], vec![C]], via_map, q, Some(4)));
       v.push(subject_scn(kind, vec![vec![E(7)], vec![E(8)]], via_map, if via_map { None } else { q }, Some(4)));
       v.push(subject_scn(kind, vec![vec![N(1), N(2)], vec![C], vec![E(7)]], via_map, None, Some(2)));
+      // one thread emits and then signals the terminal while another one emits
+      v.push(subject_scn(kind, vec![vec![N(1), C], vec![N(2)]], via_map, if via_map { None } else { Some(2) }, Some(3)));
+      v.push(subject_scn(kind, vec![vec![N(1), E(7)], vec![N(2)]], via_map, if via_map { None } else { Some(2) }, Some(3)));
     }
   }
   v
